@@ -22,8 +22,9 @@ Open Scope N_scope.
    an authenticated DS record (digest, algorithm, tag, zone flag), or a member of an RRset that
    was delivered whole together with a signature over exactly that RRset which verifies, inside
    its validity window, under an authenticated, unrevoked zone key whose owner is the signer name.
-   NOTE what the chain does NOT contain, because the code does not check it: the signer need not
-   be the zone of the record (3.), and a DNSKEY may be accepted through the DS clause alone (4.). *)
+   and is the owner of the RRset or an ancestor of it (3.; checked since the fix of finding C07-K3).
+   NOTE what the chain does NOT contain, because the code does not check it: a DNSKEY may be
+   accepted through the DS clause alone (4.). *)
 Theorem C07_secure_implies_chain :
   forall U anchors now maxd nsecv nsec3v sched,
   (forall l x, In x (sched l) -> In x l) ->
@@ -45,8 +46,10 @@ Print Assumptions C07_secure_implies_chain.
    then a Secure record that is not a DNSKEY lies in an RRset that its operator signed WHOLE
    under that name and type (nothing altered, removed, injected, or taken from elsewhere), and
    a Secure DNSKEY is an honest key.
-   Guarded: the world must contain no adversary-owned delegated zone (see 3.), and for DNSKEY
-   records only honesty of the key, not completeness of the RRset, is obtained (see 4.). *)
+   Guarded: the world must contain no adversary-owned delegated zone (every key below the anchors
+   is honest; with 3. an adversary-owned zone can only speak for names at or below its own apex, but
+   that refinement of the hypothesis is not stated here), and for DNSKEY records only honesty of
+   the key, not completeness of the RRset, is obtained (see 4.). *)
 Theorem C07_secure_implies_genuine_guarded :
   forall U anchors now maxd nsecv nsec3v sched (Honest : N -> Prop) (Genuine : tbs -> Prop),
   (forall l x, In x (sched l) -> In x l) ->
@@ -70,39 +73,65 @@ Qed.
 Print Assumptions C07_secure_implies_genuine_guarded.
 
 (* ------------------------------------------------------------------ *)
-(* 3. The signer is not tied to the record's zone                      *)
+(* 3. The signer is the zone of the record                             *)
 (* ------------------------------------------------------------------ *)
 
-(* "A Secure record was delivered with a signature whose signer is its owner or an ancestor of
-   its owner" is false: forged www.leaf.tld A, signed by the key of the properly delegated
-   sibling evil.tld with signer name evil.tld, is Secure (confirmed on the real code: finding
-   C07-K3-signer-not-ancestor). *)
-Theorem C07_secure_signed_by_own_zone_refuted :
-  exists tbl anchors now q rc a au r,
-    run_tbl tbl anchors now q = VOk rc a au /\ In (r, Secure) a /\
-    is_sig r = false /\ is_key r = false /\ ~ HomeSigned (table_upstream tbl) r.
-Proof.
-  destruct w3_secure as (rc & a & au & Hv & Hin).
-  exists w3_tbl, [1], 1700000000, ([6; 2; 1], 1), rc, a, au, w3_forged.
-  repeat split; auto. exact w3_not_home_signed.
-Qed.
-Print Assumptions C07_secure_signed_by_own_zone_refuted.
+(* RFC 4035 5.3.1: "the RRSIG RR's Signer's Name field MUST be the name of the zone that contains
+   the RRset".  Until the fix of finding C07-K3-signer-not-ancestor verify_default_rrset never
+   related the signer name to the owner, and the statements below were refuted (forged
+   www.leaf.tld A signed by the key of the properly delegated sibling evil.tld was Secure).  With
+   the fix they hold for EVERY upstream, without any hypothesis on what is delivered. *)
 
-(* Outside that class (no delivered RRSIG names a signer that is not its owner or an ancestor) it holds. *)
-Theorem C07_secure_signed_by_own_zone_guarded :
+(* Every Secure record that is not a DNSKEY was delivered in an RRset, whole, together with a
+   signature record that verifies over exactly that RRset under an authenticated zone key, the
+   owner of that key is the signature's signer name, and that name is the record's owner or an
+   ancestor of it: the signature is made by a key of an ancestor-or-equal zone of the owner. *)
+Theorem C07_signer_is_ancestor :
   forall U anchors now maxd nsecv nsec3v sched,
   (forall l x, In x (sched l) -> In x l) ->
-  (forall sec s, Delivered U sec -> In s sec -> is_sig s = true -> zone_of (sig_signer s) (owner s) = true) ->
+  forall q rc a au r,
+  (validate U anchors now maxd nsecv nsec3v sched q = VOk rc a au \/
+   exists p, validate U anchors now maxd nsecv nsec3v sched q = VNsec p rc a au) ->
+  In (r, Secure) (a ++ au) -> is_sig r = false -> is_key r = false ->
+  exists sec k s kr,
+    Delivered U sec /\ In r (recs_of k sec) /\ In s (sigs_of k sec) /\
+    SigOk now k (recs_of k sec) kr s /\ Auth U anchors now kr /\
+    sig_signer s = owner kr /\ zone_of (owner kr) (owner r) = true.
+Proof.
+  intros U anchors now maxd nsecv nsec3v sched Hs q rc a au r Hv Hin Hsig Hk.
+  eapply auth_zone_signed; eauto. eapply validate_sound; eauto.
+Qed.
+Print Assumptions C07_signer_is_ancestor.
+
+(* The former _guarded statement, now without its hypothesis "no delivered RRSIG names a signer
+   that is not its owner or an ancestor": a Secure record was delivered with a signature of its
+   RRset whose signer is its owner or an ancestor of its owner. *)
+Theorem C07_secure_signed_by_own_zone :
+  forall U anchors now maxd nsecv nsec3v sched,
+  (forall l x, In x (sched l) -> In x l) ->
   forall q rc a au r,
   (validate U anchors now maxd nsecv nsec3v sched q = VOk rc a au \/
    exists p, validate U anchors now maxd nsecv nsec3v sched q = VNsec p rc a au) ->
   In (r, Secure) (a ++ au) -> is_sig r = false -> is_key r = false ->
   HomeSigned U r.
 Proof.
-  intros U anchors now maxd nsecv nsec3v sched Hs Hz q rc a au r Hv Hin Hsig Hk.
+  intros U anchors now maxd nsecv nsec3v sched Hs q rc a au r Hv Hin Hsig Hk.
   eapply auth_home_signed; eauto. eapply validate_sound; eauto.
 Qed.
-Print Assumptions C07_secure_signed_by_own_zone_guarded.
+Print Assumptions C07_secure_signed_by_own_zone.
+
+(* The former witness of the refutation (forged www.leaf.tld A with a genuine signature of
+   evil.tld's key, signer name evil.tld; the forged record is not HomeSigned) is now rejected: the
+   forged record comes back Bogus and nothing in the response is Secure. *)
+Theorem C07_foreign_signer_rejected :
+  exists rc a au,
+    run_tbl w3_tbl [1] 1700000000 ([6; 2; 1], 1) = VOk rc a au /\ In (w3_forged, Bogus) a /\
+    (forall r, ~ In (r, Secure) (a ++ au)) /\ ~ HomeSigned (table_upstream w3_tbl) w3_forged.
+Proof.
+  destruct w3_rejected as (rc & a & au & Hv & Hin & Hno).
+  exists rc, a, au. repeat split; auto. exact w3_not_home_signed.
+Qed.
+Print Assumptions C07_foreign_signer_rejected.
 
 (* ------------------------------------------------------------------ *)
 (* 4. DNSKEY RRsets accepted key by key                                *)
@@ -146,8 +175,9 @@ Print Assumptions C07_secure_set_is_signed_guarded.
    Secure DS record with a supported algorithm and digest type: Insecure is never produced by
    a signature failure, a missing key, a timeout or an error.
    PARTIAL: the property wants that accepted DS response to be a validated denial (NSEC/NSEC3
-   proving no DS).  The code does not guarantee that — next theorem — and z need not be an
-   ancestor of the record (signer names are free, see 3.). *)
+   proving no DS).  The code does not guarantee that — next theorem.  (That z is the record's
+   owner or an ancestor of it — signer names are tied to the owner since the fix of K3, see 3. —
+   is not part of this statement.) *)
 Theorem C07_insecure_only_if_ds_unusable_partial :
   forall U anchors now maxd nsecv nsec3v sched,
   forall q rc a au r,
@@ -177,7 +207,7 @@ Print Assumptions C07_insecure_requires_denial_refuted.
 (* That class is the only way: if the upstream delivers no NSEC, NSEC3 or unsupported-DS record and
    every response to a DS query has an empty answer section or a DS record in it (i.e. outside
    C07-K2), then no upstream, however it tampers, gets any record reported Insecure.
-   (When denial material IS around, findings K3 / K5 / K6 are further ways to an unjustified
+   (When denial material IS around, findings K5 / K6 are further ways to an unjustified
    Insecure; that part of the property is not proved — see 5. partial.) *)
 Theorem C07_insecure_requires_denial_guarded :
   forall U anchors now maxd nsecv nsec3v sched,
@@ -243,14 +273,8 @@ Print Assumptions C07_server_bogus_servfail.
 (* Non-vacuity                                                         *)
 (* ------------------------------------------------------------------ *)
 
-(* hypotheses of 1., 3.-guarded-shape, 4.-guarded: a run that does return a Secure record *)
-Example C07_chain_example :
-  exists rc a au, run_tbl w3_tbl [1] 1700000000 ([6; 2; 1], 1) = VOk rc a au /\
-                  In (w3_forged, Secure) (a ++ au) /\ is_sig w3_forged = false /\ is_key w3_forged = false.
-Proof.
-  destruct w3_secure as (rc & a & au & Hv & Hin). exists rc, a, au.
-  repeat split; auto. apply in_or_app. now left.
-Qed.
+(* C07_chain_example (hypotheses of 1., 3., 4.-guarded: a run that does return a Secure record)
+   is stated after ex_tbl below *)
 
 (* hypotheses of 5.: a run that returns an Insecure record *)
 Example C07_insecure_example :
@@ -260,7 +284,8 @@ Proof.
 Qed.
 
 (* hypotheses of 5.-guarded: the W3 world (forged A under a foreign signer) delivers no denial
-   material and all its DS responses carry DS records; there the guarded theorem applies *)
+   material and all its DS responses carry DS records; there the guarded theorem applies
+   (and indeed, since the fix of K3, the forged record is Bogus, see C07_foreign_signer_rejected) *)
 Example C07_insecure_guarded_example :
   (forall sec x, Delivered (table_upstream w3_tbl) sec -> In x sec -> denial_material x = false) /\
   (forall q m, msg_of (table_upstream w3_tbl q) = Some m -> snd q = T_DS -> ans m = [] \/ existsb is_ds (ans m) = true).
@@ -308,6 +333,18 @@ Proof.
       try contradiction; reflexivity.
   - intros t d kr sec [->| ->] Ht; discriminate.
   - eexists _, _, _. split; [vm_compute; reflexivity|]. cbn. auto.
+Qed.
+
+(* hypotheses of 1., 3., 4.-guarded: a run that does return a Secure record that is neither an
+   RRSIG nor a DNSKEY (the A record at label 7 of the world above, signed by the root key), and the
+   conclusion of C07_signer_is_ancestor is then not vacuous: the signer is the root, an ancestor *)
+Example C07_chain_example :
+  exists rc a au, run_tbl ex_tbl [1] 100 ([7], 1) = VOk rc a au /\
+                  In (mkRR [7] 3 (BPlain 1), Secure) (a ++ au) /\
+                  is_sig (mkRR [7] 3 (BPlain 1)) = false /\ is_key (mkRR [7] 3 (BPlain 1)) = false /\
+                  zone_of [] [7] = true /\ zone_of [4; 1] [6; 2; 1] = false.
+Proof.
+  eexists _, _, _. split; [vm_compute; reflexivity|]. cbn. repeat split; auto.
 Qed.
 
 Example C07_server_example :
